@@ -123,6 +123,7 @@ class Probes:
         from compiler.front_end import glue, tokenizer, parser, module_ir
         from compiler.back_end.cpp import header_generator
         from compiler.util import error as error_mod, ir_data_utils, ir_data
+        from compiler.front_end import emboss_front_end  # noqa: the real import-directory reader
         import importlib
         self.glue, self.tokenizer, self.parser, self.module_ir = glue, tokenizer, parser, module_ir
         self.hg, self.error, self.ir_data_utils, self.ir_data = header_generator, error_mod, ir_data_utils, ir_data
@@ -210,6 +211,23 @@ class Probes:
 
         return read
 
+    def reader_dirs(self, dirs, collected):
+        """The REAL import-directory search (emboss_front_end._find_in_dirs_and_read), recorded."""
+        from compiler.front_end import emboss_front_end
+        real = emboss_front_end._find_in_dirs_and_read(list(dirs))
+        P = self
+
+        def read(name):
+            text, errs = real(name)
+            if errs is None and text is not None:
+                collected[name] = text
+                P.emit("Read", file=fid(name), ok=True, th=h(text))
+            else:
+                P.emit("Read", file=fid(name), ok=False, th="")
+            return text, errs
+
+        return read
+
 
 _ANON = re.compile(r"emboss_reserved_anonymous_field_(\d+)")
 _ANON_ANY = re.compile(r"(emboss_reserved_anonymous_field_|EmbossReservedAnonymousField)(\d+)")
@@ -247,7 +265,7 @@ def normalise_anon(text, ids=None):
 
 
 def traced_compile(P, files, main, *, tid, mode="inproc", key="", want_outputs=False, back_end=True, render=True,
-                   prelude_text=None):
+                   prelude_text=None, dirs=None):
     """Run the real front end (+ back end) on `files`, recording events.  Returns (events, outputs)."""
     P.events = []
     P.on = True
@@ -257,10 +275,19 @@ def traced_compile(P, files, main, *, tid, mode="inproc", key="", want_outputs=F
     try:
         P.emit("Compile", tid=tid, main=fid(main), mode=mode, key=key)
         try:
-            ir, dbg, errors = P.glue.parse_emboss_file(main, P.reader(files))
+            if dirs is not None:
+                files = {}
+                reader = P.reader_dirs(dirs, files)
+            else:
+                reader = P.reader(files)
+            if mode == "front":
+                back_end = False
+            ir, dbg, errors = P.glue.parse_emboss_file(main, reader)
             P.emit("Front", kind=("errors" if errors else "ir"), groups=[g[1] for g in groups_sig(errors)],
                    has_ir=ir is not None)
             header = None
+            if not errors and not back_end and want_outputs:
+                out["ir_json"] = P.ir_data_utils.IrDataSerializer(ir).to_json()
             if not errors and back_end:
                 stage = "back"
                 if mode == "split":
